@@ -16,10 +16,16 @@ META = {
                    "equals (vec(H_k) - vec(H)) / sqrt(nb (nb-1)) where H_k is the moment matrix of block k of the lagged products on the "
                    "same normalisation as H (block sum / block length) and vec is COLUMN-major - the vectorisation for which the "
                    "propagation step's Kronecker selectors (I (x) u^T) vec(X) = X^T u and (v^T (x) I) vec(X) = X v hold (checked as "
-                   "identities on symbolic X, u, v for the shapes used).  The delta-method equality of the coded Doehler-Mevel "
-                   "sensitivities themselves is outside the claim.",
-    "bounds": {"quick": {"l": "1..2", "r": "1..2", "br": 1, "nb": 2, "N": "6 and 7"}, "thorough": {"l": "1..2", "r": "1..2", "br": "1..2", "nb": "2..3"}},
-    "stubs": ["none (np.sqrt of the concrete nb(nb-1) is NumPy's)"],
+                   "identities on symbolic X, u, v for the shapes used).  O3: SSI_fast(calc_unc=True) over symbolic SVD factors hands the "
+                   "true singular triplets (U[:, i], row i of V^T) to its Kronecker selectors.  O4: SSI_poles(calc_unc=True), given Q1..Q3 "
+                   "built from one symbolic perturbation dO of the observability matrix, reports (grad f . dlam)^2 with dlam the first-order "
+                   "eigenvalue perturbation of the shift-invariance solution and grad f the gradient of |ln(lam)/dt|/(2 pi); eigenpairs, ln, "
+                   "|lam_c| and the inverted Gram matrix are symbols.  The singular-vector sensitivity of SSI_fast (Eqs 28-34) is outside.",
+    "bounds": {"quick": {"l": "1..2", "r": "1..2", "br": 1, "nb": 2, "N": "6 and 7", "O3": "orders <= 2, H up to 4x4", "O4": "1 channel, 3 block rows of Obs, orders 1..2"},
+               "thorough": {"l": "1..2", "r": "1..2", "br": "1..2", "nb": "2..3", "O3": "orders <= 3", "O4": "1..2 channels, br 1..3, orders 1..2"}},
+    "stubs": ["O1: none (np.sqrt of the concrete nb(nb-1) is NumPy's)", "O3: np.linalg.svd returns fresh symbolic factors, qr/inv opaque, np.kron recorded",
+              "O4: ssi.ac2mp returns symbolic eigenvalues (discrete, continuous with |lam_c| a symbol) and unit-first-component eigenvectors; "
+              "np.linalg.inv returns a fixed rational matrix; Obs is a fixed generic integer matrix (it enters only through bilinear forms with dO)"],
     "assumptions": ["the sensitivity formulas of SSI_fast / SSI_poles (implicit differentiation of SVD, QR, inverse and eigen-decomposition) "
                     "cannot be encoded within reach: that clause is not claimed"],
 }
@@ -38,11 +44,13 @@ def jobs(tier):
     # ordmax <= br * l (the shift-invariance block must have at least ordmax rows)
     for l, r, br, om in (((1, 1, 2, 2), (2, 1, 1, 2), (2, 2, 1, 2)) if q else ((1, 1, 2, 2), (2, 1, 1, 2), (2, 2, 1, 2), (2, 2, 2, 3), (3, 2, 1, 3))):
         out.append({"ob": "O3", "cfg": {"l": l, "r": r, "br": br, "ordmax": om}})
+    for nch, br, om in (((1, 2, 2),) if q else ((1, 2, 2), (2, 1, 2), (1, 3, 2))):
+        out.append({"ob": "O4", "cfg": {"nch": nch, "br": br, "ordmax": om}})
     return out
 
 
 def run(job, tier):
-    return {"O1": run_factor, "O2": run_vec, "O3": run_triplets}[job["ob"]](job["cfg"], tier)
+    return {"O1": run_factor, "O2": run_vec, "O3": run_triplets, "O4": run_assembly}[job["ob"]](job["cfg"], tier)
 
 
 class _LA:
@@ -129,16 +137,185 @@ def run_triplets(cfg, tier):
     return tally.result(ex)
 
 
-def cext(cfg, note):
-    v, d, key = replay_fd(cfg)
-    return {"inputs": {}, "reproduced": v, "detail": (note + " | " if note else "") + d, "key": key}
+def run_assembly(cfg, tier):
+    """SSI_poles(calc_unc=True) given Q1..Q3 built (as SSI_fast builds them) from ONE perturbation dO of the observability
+    matrix: the reported frequency variance at (pole j, order n) equals (grad f . (Re dlam, Im dlam))^2 where
+      dlam = l^H G^-1 [ dOp^T Om r + Op^T dOm r - lam (dOp^T Op + Op^T dOp) r ] / (l^H r)      (G = Op^T Op)
+    is the first-order perturbation of the eigenvalue lam of the shift-invariance solution A = Op^+ Om (A r = lam r used), and
+      grad f = [Re lc, Im lc] [[Re lam, Im lam], [-Im lam, Re lam]] / (2 pi dt |lam|^2 |lc|),   lc = ln(lam)/dt
+    is the gradient of f = |ln(lam)/dt| / (2 pi).  Eigenpairs, ln and G^-1 are symbolic (stubs); what is decided is the
+    assembly: selection/permutation matrices, Kronecker products, Lemma 5 matrices, which entry of the 2x2 covariance is
+    reported."""
+    from pyoma2.functions import ssi
+    import symx.core as core
+    from symx.core import SC, toc
+    core.SOM_BLOWUP = 10 ** 6       # the order-2 identities need the full expansion; the job runs in its own process
+    nch, br, om = cfg["nch"], cfg["br"], cfg["ordmax"]
+    rows = (br + 1) * nch
+    st = {}
+
+    class LAinv:
+        def __init__(self):
+            self.calls = []
+
+        def inv(self, X):
+            X = np.asarray(X, dtype=object)
+            n = X.shape[0]
+            # the value of G^-1 is irrelevant to the assembly: a fixed non-symmetric rational matrix keeps the identity small
+            OO = SymArray(np.array([[lift(Fraction(2 + 3 * i + j, 1 + i + 2 * j)) for j in range(n)] for i in range(n)], dtype=object))
+            self.calls.append((X, OO))
+            return OO
+
+        def __getattr__(self, k):
+            raise ShimGap(f"np.linalg.{k} not modelled")
+
+    la = LAinv()
+
+    def ac2mp_stub(A, C, dt, calc_unc=False):
+        n = np.shape(A)[0]
+        # eigenvectors normalised to a unit first component (any eigenvector basis can be scaled so; the code divides by l^H r)
+        def unit_first(M):
+            M = np.asarray(M, dtype=object).copy()
+            for j in range(n):
+                M[0, j] = toc(1.0)
+            return SymArray(M)
+        class _ModSC(SC):
+            """complex value whose modulus is a given positive symbol (kept as a symbol so that no square root enters the identity;
+            code and specification use it alike, so the relation mod^2 = re^2 + im^2 is not needed)"""
+
+            def __abs__(self):
+                return self._mod
+
+            def copy(self):
+                x = _ModSC(self.re, self.im, self.nan, d=self.d, dp=self.dp)
+                x._mod = self._mod
+                return x
+
+        def with_mod(arr, tag):
+            out = np.empty(n, dtype=object)
+            for j in range(n):
+                c = toc(arr[j])
+                x = _ModSC(c.re, c.im, c.nan, d=c.d, dp=c.dp)
+                x._mod = fresh(f"{tag}{n}_{j}", nn=True)
+                Explorer.cur.assume(x._mod.v > 0)
+                out[j] = x
+            return SymArray(out)
+        eg = {"lam_d": fresh(f"ld{n}", (n,), complex_=True), "lam_c": with_mod(fresh(f"lc{n}", (n,), complex_=True), "modlc"),
+              "l": unit_first(fresh(f"el{n}", (n, n), complex_=True)), "r": unit_first(fresh(f"er{n}", (n, n), complex_=True))}
+        st["eig"][n] = eg
+        fn, xi = fresh(f"fn{n}", (n,)), fresh(f"xi{n}", (n,))
+        phi = fresh(f"phi{n}", (n, nch), complex_=True)
+        return fn, xi, phi, eg["lam_c"], eg["lam_d"], eg["l"], eg["r"]
+
+    W = World(overrides={"np": NPProxy(linalg=la)}, per_module={"pyoma2.functions.ssi": {"ac2mp": ac2mp_stub}})
+    tm = W.module(ssi)
+    tally = Tally(W, ["SSI_poles"])
+    ex = Explorer(timeout_ms=120000)
+
+    def body():
+        del la.calls[:]
+        st["eig"] = {}
+        # Obs enters only through fixed bilinear forms with dO: a fixed generic integer matrix keeps the identity small
+        Obs = SymArray(np.array([[lift(float(((3 * i + 5 * j) % 7) - 2 + (1 if i == j else 0))) for j in range(om)] for i in range(rows)], dtype=object))
+        dO = fresh("dO", (rows, om))
+        dt = fresh("dt", nn=True)
+        Explorer.cur.assume(dt.v > 0)
+        Op, Om, dOp, dOm = Obs[:rows - nch, :], Obs[nch:, :], dO[:rows - nch, :], dO[nch:, :]
+
+        def vecF(M):
+            return SymArray(np.array([[M[i, j]] for j in range(om) for i in range(om)], dtype=object))
+        Q1, Q2, Q3 = vecF(Op.T @ dOp), vecF(Om.T @ dOp), vecF(Op.T @ dOm)
+        Q4 = SymArray(np.array([[dO[i, j]] for j in range(om) for i in range(nch)], dtype=object))
+        AA = [fresh(f"A{n}", (n, n)) if n else SymArray(np.empty((0, 0), dtype=object)) for n in range(om + 1)]
+        CC = [SymArray(np.empty((nch, n), dtype=object)) if n == 0 else fresh(f"C{n}", (nch, n)) for n in range(om + 1)]
+        st.update(Obs=Obs, dO=dO, dt=dt)
+        return tm.SSI_poles(Obs, AA, CC, om, dt, step=1, calc_unc=True, Q1=Q1, Q2=Q2, Q3=Q3, Q4=Q4)
+
+    for e, (kind, res) in ex.run_all(body):
+        if kind == "exc":
+            tally.decide(e, z3.BoolVal(True), on_sat=lambda m: cext(cfg, f"raised {type(res).__name__}: {res}", "SSI_poles:unc:assembly"), with_side=False)
+            continue
+        Obs, dO, dt = st["Obs"], st["dO"], st["dt"]
+        Fn_cov = res[4]
+        why, bad, per_pole = [], [], []
+        if Fn_cov is None or np.shape(Fn_cov) != (om, om + 1):
+            why.append(f"Fn_cov shape {None if Fn_cov is None else np.shape(Fn_cov)}")
+        elif len(la.calls) != om:
+            why.append(f"{len(la.calls)} matrix inversions for {om} orders")
+        else:
+            inv_two_pi = lift(1 / (2 * np.pi))      # the code's double constant (1/fl(2 pi) is a different rational)
+            for n in range(1, om + 1):
+                X, OO = la.calls[n - 1]
+                Op, Om, dOp, dOm = Obs[:rows - nch, :n], Obs[nch:, :n], dO[:rows - nch, :n], dO[nch:, :n]
+                G = Op.T @ Op
+                bad += [differs(X[i, j], G[i, j]) for i in range(n) for j in range(n)]
+                eg = st["eig"][n]
+                M1 = dOp.T @ Om
+                M2 = Op.T @ dOm
+                M3 = dOp.T @ Op + Op.T @ dOp
+                for j in range(n):
+                    lam, lc = toc(eg["lam_d"][j]), eg["lam_c"][j]
+                    r = [toc(eg["r"][i, j]) for i in range(n)]
+                    lH = [toc(eg["l"][i, j]).conjugate() for i in range(n)]
+                    v = [sum((toc(M1[i, k]) * r[k] + toc(M2[i, k]) * r[k] - lam * toc(M3[i, k]) * r[k] for k in range(n)), toc(0)) for i in range(n)]
+                    w = [sum((toc(OO[i, k]) * v[k] for k in range(n)), toc(0)) for i in range(n)]
+                    dlam = sum((lH[i] * w[i] for i in range(n)), toc(0)) / sum((lH[i] * r[i] for i in range(n)), toc(0))
+                    a, b = lc.real, lc.imag
+                    g0 = a * lam.real - b * lam.imag
+                    g1 = a * lam.imag + b * lam.real
+                    den = dt * lam.abs2() * abs(lc)
+                    df = (g0 * dlam.real + g1 * dlam.imag) * inv_two_pi / den
+                    per_pole.append((n, j, lift(Fn_cov[j, n]), df * df))
+        neg = z3.BoolVal(True) if why else z3.Or(*bad)
+        tally.decide(e, neg, on_sat=lambda m, why=tuple(why): cext(cfg, "; ".join(why) or None, "SSI_poles:unc:assembly"), with_side=not why,
+                     label=f"inverted matrix == Op^T Op, nch={nch} br={br} ordmax={om}")
+        for n, j, got, want in per_pole:
+            if tally.stop:
+                break
+            # a polynomial identity that fails fails at almost every point: substituting a few rational points into the two
+            # (unexpanded) terms settles `sat` in seconds, where expanding the non-zero difference and the non-linear engine
+            # can take very long; `unsat` is still the solver's verdict on the expanded identity
+            if _differ_at_a_point(e, got, want):
+                tally.obligations += 1
+                tally.reach = True
+                c = cext(cfg, f"order {n} pole {j}: reported variance differs from (grad f . dlam)^2", "SSI_poles:unc:assembly")
+                tally.cex.append(c)
+                if c["reproduced"]:
+                    tally.stop = True
+                    e.halt = True
+                break
+            tally.decide(e, differs(got, want), on_sat=lambda m: cext(cfg, None, "SSI_poles:unc:assembly"), with_side=True,
+                         label=f"frequency variance == (grad f . dlam)^2, order {n} pole {j}, nch={nch} br={br}")
+    return tally.result(ex)
+
+
+def _differ_at_a_point(e, a, b, tries=6):
+    """True if the two real terms take different values at some rational point satisfying path and side conditions"""
+    import random
+    from symx.harness import _free_consts
+    conds = list(e.pc) + list(e.side)
+    consts = sorted(_free_consts([a.z, b.z] + conds), key=str)
+    rnd = random.Random(7)
+    for _ in range(tries):
+        subs = [(c, z3.Q(rnd.randint(1, 9) * rnd.choice((1, -1)), rnd.randint(2, 7))) for c in consts]
+        if not all(z3.is_true(z3.simplify(z3.substitute(c, *subs))) for c in conds):
+            continue
+        va, vb = z3.simplify(z3.substitute(a.z, *subs)), z3.simplify(z3.substitute(b.z, *subs))
+        if z3.is_rational_value(va) and z3.is_rational_value(vb) and not z3.eq(va, vb):
+            return True
+    return False
+
+
+def cext(cfg, note, key=None):
+    v, d, k0 = replay_fd(cfg)
+    return {"inputs": {}, "reproduced": v, "detail": (note + " | " if note else "") + d, "key": key or k0}
 
 
 def replay_fd(cfg):
     """real SSI_fast + SSI_poles: a rank-one Hankel covariance vec(D) vec(D)^T (column-major vec) must propagate to the squared
     directional derivative of each frequency along D (central finite difference)"""
     from pyoma2.functions import ssi
-    l, r, br, om = max(cfg["l"], 2), cfg["r"], 3, 4
+    l, r, br, om = max(cfg.get("l", cfg.get("nch", 2)), 2), cfg.get("r", 1), 3, 4
     rng = np.random.RandomState(5)
     nd, dt = 6000, 0.01
     t = np.arange(nd) * dt
@@ -149,23 +326,27 @@ def replay_fd(cfg):
         sd = signal.cont2discrete(([1.0], [1.0, 2 * zz * w, w * w]), dt)
         Y += np.outer(rng.randn(l), signal.lfilter(sd[0].flatten(), sd[1], rng.randn(nd)))
     Y += 0.01 * Y.std() * rng.randn(l, nd)
-    H, _ = ssi.build_hank(Y, Y[:r], br, "cov_mm")
+    H0, _ = ssi.build_hank(Y, Y[:r], br, "cov_mm")
 
     def fn_of(Hm):
         Obs, A, C, *_ = ssi.SSI_fast(Hm, br, om)
         return ssi.SSI_poles(Obs, A, C, om, dt)[0][:, om]
 
-    D = rng.randn(*H.shape) * np.abs(H).mean()
+    D0 = rng.randn(*H0.shape) * np.abs(H0).mean()
     eps = 1e-6
-    fd = (fn_of(H + eps * D) - fn_of(H - eps * D)) / (2 * eps)
-    try:
-        Obs, A, C, Q1, Q2, Q3, Q4 = ssi.SSI_fast(H, br, om, calc_unc=True, T=D.reshape(-1, 1, order="F"), nb=1)
-        var = ssi.SSI_poles(Obs, A, C, om, dt, calc_unc=True, Q1=Q1, Q2=Q2, Q3=Q3, Q4=Q4)[4][:, om]
-    except Exception as e:  # noqa: BLE001
-        return True, f"propagation raised {type(e).__name__}: {e}", "SSI_fast:unc:raises"
-    ok = np.allclose(var, fd ** 2, rtol=1e-3, atol=1e-12)
-    return (not ok), (f"propagated frequency variance {np.round(var, 6).tolist()} vs squared directional derivative "
-                      f"{np.round(fd ** 2, 6).tolist()} (l={l}, r={r}, br={br}, order {om})"), "SSI_fast:unc:singular-vectors"
+    # the same record in two amplitude units: the Hankel matrix (and the direction) scale with the square of the unit
+    for unit in (1.0, 1e-5):
+        H, D = H0 * unit ** 2, D0 * unit ** 2
+        fd = (fn_of(H + eps * D) - fn_of(H - eps * D)) / (2 * eps)
+        try:
+            Obs, A, C, Q1, Q2, Q3, Q4 = ssi.SSI_fast(H, br, om, calc_unc=True, T=D.reshape(-1, 1, order="F"), nb=1)
+            var = ssi.SSI_poles(Obs, A, C, om, dt, calc_unc=True, Q1=Q1, Q2=Q2, Q3=Q3, Q4=Q4)[4][:, om]
+        except Exception as e:  # noqa: BLE001
+            return True, f"propagation raised {type(e).__name__}: {e}", "SSI_fast:unc:raises"
+        if not np.allclose(var, fd ** 2, rtol=1e-3, atol=1e-12):
+            return True, (f"propagated frequency variance {np.round(var, 6).tolist()} vs squared directional derivative "
+                          f"{np.round(fd ** 2, 6).tolist()} (l={l}, r={r}, br={br}, order {om}, amplitude unit {unit:g})"), "SSI_fast:unc:singular-vectors"
+    return False, "propagated variance == squared directional derivative (two amplitude units)", "SSI_fast:unc:singular-vectors"
 
 
 def run_factor(cfg, tier):
@@ -226,8 +407,19 @@ def replay_factor(cfg):
     """real build_hank(calc_unc=True) on seeded data against the definition; classifies scaling vs vectorisation"""
     from pyoma2.functions import ssi
     l, r, br, nb = cfg["l"], cfg["r"], cfg["br"], cfg["nb"]
+    last = (False, "factor as specified", None)
+    # record lengths with N a multiple of nb and not (the block length is N // nb)
+    for nd in (2 * br + 1 + nb * 40, 2 * br + 1 + nb * 40 + max(1, nb - 1)):
+        last = _replay_factor_len(cfg, nd)
+        if last[0]:
+            return last
+    return last
+
+
+def _replay_factor_len(cfg, nd):
+    from pyoma2.functions import ssi
+    l, r, br, nb = cfg["l"], cfg["r"], cfg["br"], cfg["nb"]
     rng = np.random.RandomState(23)
-    nd = 2 * br + 1 + nb * 40
     Y, Yref = rng.randn(l, nd) + 1.0, rng.randn(r, nd) - 0.5
     try:
         H, T = ssi.build_hank(Y, Yref, br, "cov_mm", calc_unc=True, nb=nb)
